@@ -55,6 +55,7 @@ CPPScope(CPPScope *parent_scope,
   _is_fully_specified_recursive_protect = false;
   _subst_decl_recursive_protect = false;
   _using_search_protect = false;
+  _base_search_protect = false;
 }
 
 /**
@@ -581,7 +582,10 @@ find_type(const string &name, bool recurse) const {
     ((CPPScope *)this)->_using_search_protect = false;
   }
 
-  if (_struct_type != nullptr) {
+  if (_struct_type != nullptr && !_base_search_protect) {
+    // The base classes can form a cycle in ill-formed code ("template<class
+    // T> struct B : T {}; struct D : B<D> {};"); don't go round in circles.
+    ((CPPScope *)this)->_base_search_protect = true;
     CPPStructType::Derivation::const_iterator di;
     for (di = _struct_type->_derivation.begin();
          di != _struct_type->_derivation.end();
@@ -590,10 +594,12 @@ find_type(const string &name, bool recurse) const {
       if (st != nullptr) {
         CPPType *type = st->_scope->find_type(name, false);
         if (type != nullptr) {
+          ((CPPScope *)this)->_base_search_protect = false;
           return type;
         }
       }
     }
+    ((CPPScope *)this)->_base_search_protect = false;
   }
 
   if (recurse && _parent_scope != nullptr) {
@@ -640,7 +646,10 @@ find_type(const string &name, CPPDeclaration::SubstDecl &subst,
     ((CPPScope *)this)->_using_search_protect = false;
   }
 
-  if (_struct_type != nullptr) {
+  if (_struct_type != nullptr && !_base_search_protect) {
+    // The base classes can form a cycle in ill-formed code ("template<class
+    // T> struct B : T {}; struct D : B<D> {};"); don't go round in circles.
+    ((CPPScope *)this)->_base_search_protect = true;
     CPPStructType::Derivation::const_iterator di;
     for (di = _struct_type->_derivation.begin();
          di != _struct_type->_derivation.end();
@@ -650,10 +659,12 @@ find_type(const string &name, CPPDeclaration::SubstDecl &subst,
         CPPType *type = st->_scope->find_type(name, subst, global_scope,
                                               false);
         if (type != nullptr) {
+          ((CPPScope *)this)->_base_search_protect = false;
           return type;
         }
       }
     }
+    ((CPPScope *)this)->_base_search_protect = false;
   }
 
   if (recurse && _parent_scope != nullptr) {
@@ -697,7 +708,8 @@ find_scope(const string &name, CPPScope *global_scope, bool recurse) const {
       }
     }
 
-  } else if (_struct_type != nullptr) {
+  } else if (_struct_type != nullptr && !_base_search_protect) {
+    ((CPPScope *)this)->_base_search_protect = true;
     CPPStructType::Derivation::const_iterator di;
     for (di = _struct_type->_derivation.begin();
          di != _struct_type->_derivation.end();
@@ -707,6 +719,7 @@ find_scope(const string &name, CPPScope *global_scope, bool recurse) const {
         type = st->_scope->find_type(name, false);
       }
     }
+    ((CPPScope *)this)->_base_search_protect = false;
   }
 
   if (type != nullptr) {
@@ -826,7 +839,10 @@ find_symbol(const string &name, bool recurse) const {
     ((CPPScope *)this)->_using_search_protect = false;
   }
 
-  if (_struct_type != nullptr) {
+  if (_struct_type != nullptr && !_base_search_protect) {
+    // The base classes can form a cycle in ill-formed code ("template<class
+    // T> struct B : T {}; struct D : B<D> {};"); don't go round in circles.
+    ((CPPScope *)this)->_base_search_protect = true;
     CPPStructType::Derivation::const_iterator di;
     for (di = _struct_type->_derivation.begin();
          di != _struct_type->_derivation.end();
@@ -835,10 +851,12 @@ find_symbol(const string &name, bool recurse) const {
       if (st != nullptr) {
         CPPDeclaration *decl = st->_scope->find_symbol(name, false);
         if (decl != nullptr) {
+          ((CPPScope *)this)->_base_search_protect = false;
           return decl;
         }
       }
     }
+    ((CPPScope *)this)->_base_search_protect = false;
   }
 
   if (recurse && _parent_scope != nullptr) {
@@ -875,7 +893,10 @@ find_template(const string &name, bool recurse) const {
     ((CPPScope *)this)->_using_search_protect = false;
   }
 
-  if (_struct_type != nullptr) {
+  if (_struct_type != nullptr && !_base_search_protect) {
+    // The base classes can form a cycle in ill-formed code ("template<class
+    // T> struct B : T {}; struct D : B<D> {};"); don't go round in circles.
+    ((CPPScope *)this)->_base_search_protect = true;
     CPPStructType::Derivation::const_iterator di;
     for (di = _struct_type->_derivation.begin();
          di != _struct_type->_derivation.end();
@@ -884,10 +905,12 @@ find_template(const string &name, bool recurse) const {
       if (st != nullptr) {
         CPPDeclaration *decl = st->_scope->find_template(name, false);
         if (decl != nullptr) {
+          ((CPPScope *)this)->_base_search_protect = false;
           return decl;
         }
       }
     }
+    ((CPPScope *)this)->_base_search_protect = false;
   }
 
   if (recurse && _parent_scope != nullptr) {
